@@ -265,12 +265,22 @@ def evaluate(case):
     nt = False
     evals = 0
     keys = []
+    line_buf = []
+    n_list_parses = 0
     for inp in case["inputs"]:
         tokens = concrete_tokens(conc, inp["toks"])
         text, pos = gk.render(tokens, inp["seps"])
         as_list = bool(inp.get("as_list"))
-        src = text.split("\n") if as_list else text
         lines = text.split("\n")
+        if as_list:
+            # one list object per case, edited in place between the parses (a caller may keep and reuse its buffer)
+            line_buf[:] = lines
+            src = line_buf
+            if n_list_parses:
+                classes.add("list_buffer_reused_in_place")
+            n_list_parses += 1
+        else:
+            src = text
         evals += 1
         if inp.get("foreign") is not None and tokens:
             # lexical error: one foreign character right before token k
@@ -279,7 +289,11 @@ def evaluate(case):
             (l, c) = pos[k][0]
             bad_lines = list(lines)
             bad_lines[l - 1] = bad_lines[l - 1][:c - 1] + ch + bad_lines[l - 1][c - 1:]
-            bad = bad_lines if as_list else "\n".join(bad_lines)
+            if as_list:
+                line_buf[:] = bad_lines
+                bad = line_buf
+            else:
+                bad = "\n".join(bad_lines)
             classes.add("lexical_error_case")
             try:
                 parser.parse(bad, do_cleanup=False)
